@@ -450,6 +450,12 @@ def Mode.generate (md : Mode) (proj requirePath current : Path) : List Char :=
   | .path m => generateRequirePath m proj requirePath current
   | .luau m => generateRequireLuau m proj requirePath current
 
+/-- One locator instance answering a history of calls `(require, requiring file)`, in order,
+as bundling uses it. The locators hold no state: every answer is computed from the call alone. -/
+def Mode.findHistory (md : Mode) (proj : Path) (isFile : Path → Bool) (calls : List (Path × Path)) :
+    List (Except FindErr Path) :=
+  calls.map fun c => md.find proj isFile c.1 c.2
+
 /-- match_require.rs: match_path_require_call — the string literal of a require call is
 normalised (keeping a leading `.`) before any locator sees it -/
 def matchPathRequireCall (literal : Path) : Path := normalize true literal
